@@ -38,6 +38,7 @@ type T struct {
 	Panic  string
 	Reach  []string
 	assume bool
+	roots  []protectedRoot
 }
 
 type assumeFailed struct{}
@@ -500,10 +501,38 @@ func (v *T) AssertUnchanged(label string, t tensor.Tensor, s *Snap) {
 	}
 }
 
-// Protect / AssertNoWrites: frame monitor (interpreter only; natively a
-// snapshot comparison is the closest observable).
-func (v *T) Protect(name string, t tensor.Tensor) {}
-func (v *T) AssertNoWrites(label string)          { v.Reach = append(v.Reach, label) }
+// Protect / ProtectAll / AssertNoWrites: the frame monitor. Under the interpreter every
+// store into the protected objects is seen; natively the closest observable is a lasting
+// change of the state reachable from the protected roots (fingerprints are compared).
+type protectedRoot struct {
+	name string
+	root interface{}
+	fp   string
+}
+
+func (v *T) Protect(name string, t tensor.Tensor) {
+	if t == nil || reflect.ValueOf(t).IsNil() {
+		return
+	}
+	v.roots = append(v.roots, protectedRoot{name, t, v.Fingerprint(t)})
+}
+
+func (v *T) ProtectAll(name string, root interface{}) {
+	v.roots = append(v.roots, protectedRoot{name, root, v.Fingerprint(root)})
+}
+
+// ProtectPackageState arms the monitor on gonnx's package-level variables (interpreter only).
+func (v *T) ProtectPackageState() {}
+
+func (v *T) AssertNoWrites(label string) {
+	v.Reach = append(v.Reach, label)
+	for _, r := range v.roots {
+		if v.Fingerprint(r.root) != r.fp {
+			v.Fails = append(v.Fails, label)
+			return
+		}
+	}
+}
 
 // ---- native replay driver
 
@@ -668,7 +697,10 @@ func fingerprint(x reflect.Value, depth int, seen map[uintptr]bool) string {
 			return "nil"
 		}
 		if t, ok := tensorOf(x); ok {
-			return "tensor" + fmt.Sprint([]int(t.Shape()))
+			if os.Getenv("ZZVERIF_FP_SHAPE_ONLY") != "" {
+				return "tensor" + fmt.Sprint([]int(t.Shape()))
+			}
+			return "tensor" + fmt.Sprint([]int(t.Shape())) + fmt.Sprint(t.Strides()) + t.Dtype().String() + fmt.Sprint(logicalData(t))
 		}
 		if seen[x.Pointer()] {
 			return "&cycle"
